@@ -120,6 +120,29 @@ pub fn ref_encode(s: &Schema, m: &DynMsg, ch: &mut Choices) -> Vec<u8> {
     out
 }
 
+/// records a decoder must see overridden by what follows (last occurrence wins): for every map entry, with probability 1/2, an
+/// earlier entry with the same key and no value; for singular scalar fields, with probability 1/3, an earlier explicit zero
+pub fn stale_prefix(s: &Schema, m: &DynMsg, r: &mut Rng) -> Vec<u8> {
+    let mut out = vec![];
+    for (d, slot) in s.decls(m.idx).iter().zip(&m.slots) {
+        match (d, slot) {
+            (Decl::Map { tag, k, .. }, Slot::Map(mm)) => {
+                for (key, _) in mm.sorted() {
+                    if !r.chance(1, 2) { continue; }
+                    let mut kr = vec![];
+                    put_key(1, wire_of(*k), &mut kr); enc_scalar(*k, &key.0, &mut kr);
+                    put_key(*tag, 2, &mut out); put_varint(kr.len() as u64, &mut out); out.extend(kr);
+                }
+            }
+            (Decl::Single { tag, ty: FTy::Scalar(c), .. }, Slot::Req(_) | Slot::Some(_)) => {
+                if r.chance(1, 3) { put_key(*tag, wire_of(*c), &mut out); enc_scalar(*c, &c.default(), &mut out); }
+            }
+            _ => {}
+        }
+    }
+    out
+}
+
 // ---------------------------------------------------------------- reference decoder
 fn rd_var(b: &[u8], p: &mut usize) -> Option<u64> {
     let mut v: u128 = 0;
